@@ -130,37 +130,33 @@ func scenarioC06Encoded(c *hlib.RunCtx) *hlib.Violation {
 	}
 	meta := refformat.MetaText(kv[:t.Range(0, len(kv))])
 	if t.Bool(1, 3) {
-		// Metadata of any shape the layout admits: the lines in any order, blank
-		// lines before and between them, empty values, values that hold ": ",
-		// keys with spaces, no final blank line, and sizes up to the cap.
+		// Metadata of other shapes than the library writes: the lines in another
+		// order and under other keys, empty values, values that hold ": ", and
+		// sizes up to the cap.
 		var sb strings.Builder
 		lines := kv[:t.Range(0, len(kv))]
+		// (no blank line before the last one, the final blank line always there, no
+		// white space around values: what a blank line inside the block or white
+		// space around a value means is not something the layout says)
 		for i, p := range lines {
-			if t.Bool(1, 4) {
-				sb.WriteString("\n")
-				w.s.Probe("metadata-blank-line")
-			}
 			val := p[1]
 			switch t.Draw(6) {
 			case 1:
 				val = ""
 			case 2:
 				val += ": " + val
-			case 3:
-				val = " " + val + " "
 			}
 			sb.WriteString(fmt.Sprintf("%s%d: %s\n", p[0], i, val))
 		}
-		if t.Bool(1, 2) {
-			sb.WriteString("\n")
-		}
 		meta = sb.String()
-		if t.Bool(1, 4) && len(meta) < refformat.MaxMeta-8 {
+		tail := "\n"
+		if t.Bool(1, 4) && len(meta) < refformat.MaxMeta-9 {
 			// exactly at (or just below) the cap
-			pad := refformat.MaxMeta - len(meta) - len("Pad: \n") - t.Draw(2)
+			pad := refformat.MaxMeta - len(meta) - len(tail) - len("Pad: \n") - t.Draw(2)
 			meta += "Pad: " + strings.Repeat("x", pad) + "\n"
 			w.s.Probe("metadata-at-cap")
 		}
+		meta += tail
 	}
 	var pairs []refformat.Pair
 	n := t.Draw(12)
@@ -215,6 +211,24 @@ func scenarioC06Encoded(c *hlib.RunCtx) *hlib.Violation {
 	c.Note(fmt.Sprintf("encoded-style-%d", style))
 	c.Sample = map[string]any{"style": style, "records": len(pairs), "size": len(data)}
 	w.s.Logf("case", "style %d records %d size %d content %x", style, len(pairs), len(data), sha256.Sum256(data))
+	if _, strictErr := refformat.Decode(data); strictErr != nil {
+		// Well-formed by the layout comment alone, but not as the library's writers
+		// lay files out (records across the tail of a page, a file that is not a
+		// whole number of pages): a reader may refuse it; if it reads it, it reads
+		// what is there.
+		if pf, err := parseBounded("encoded.v1.count", data); err != nil {
+			if te, total := err.(*totalityError); total {
+				w.fail("parse-"+te.kind, "Parse on a file of the independent encoder (style %d): %s", style, te.msg)
+			}
+			c.Note("tight-file-refused")
+			if w.viol != nil {
+				w.viol.Property = c.Prop
+			}
+			return w.viol
+		} else {
+			_ = pf
+		}
+	}
 	w.compareParse(&view{path: "encoded.v1.count", last: data, dec: d})
 	if w.viol != nil {
 		w.viol.Property = c.Prop
